@@ -30,6 +30,8 @@ func monitorC12(w *World, r *Result) *Violation {
 		return &Violation{Property: "C12", Sig: "process-died:" + reDigits.ReplaceAllString(first, "N"), Detail: "the build process died\n" + r.Panic, Worlds: []*World{w}, Mode: "single", Expect: []string{digest(r)}}
 	case r.Exit == -2:
 		return &Violation{Property: "C12", Sig: "hang:" + w.Class, Detail: r.Panic, Worlds: []*World{w}, Mode: "single", Expect: []string{digest(r)}}
+	case r.Race != "":
+		return &Violation{Property: "C12", Sig: "data-race-in-the-build-process:" + raceFrames(r.Race), Detail: "the race detector reported during this build (goroutines of the tree touch shared state without synchronisation: a fault waiting to happen)\n" + r.Race, Worlds: []*World{w}, Mode: "single", Expect: []string{digest(r)}}
 	case r.Exit != 0 && r.Exit != 1:
 		return &Violation{Property: "C12", Sig: fmt.Sprintf("exit-status:%d", r.Exit), Detail: fmt.Sprintf("exit status %d is neither 0 nor 1", r.Exit), Worlds: []*World{w}, Mode: "single", Expect: []string{digest(r)}}
 	}
@@ -88,4 +90,31 @@ func init() {
 		}
 		return "", ""
 	}
+}
+
+var reRaceFrame = regexp.MustCompile(`(?m)^  ([A-Za-z0-9_./*()\-]+)\(\)$`)
+
+// raceFrames names the first two frames inside the project.
+func raceFrames(text string) string {
+	var fr []string
+	for _, m := range reRaceFrame.FindAllStringSubmatch(text, -1) {
+		f := m[1]
+		if !strings.Contains(f, "gontainer/gontainer/") {
+			continue
+		}
+		f = f[strings.LastIndex(f, "/")+1:]
+		dup := false
+		for _, x := range fr {
+			if x == f {
+				dup = true
+			}
+		}
+		if !dup {
+			fr = append(fr, f)
+		}
+		if len(fr) == 2 {
+			break
+		}
+	}
+	return strings.Join(fr, "<->")
 }
